@@ -919,7 +919,7 @@ class FileHashStore(HashStore):
                     if self.use_multiprocessing:
                         with self.metadata_condition_mp:
                             # Wait for the pid to release if it's in use
-                            while pid in self.metadata_locked_docs_mp:
+                            while pid_doc in self.metadata_locked_docs_mp:
                                 self.fhs_logger.debug(sync_wait_msg)
                                 self.metadata_condition_mp.wait()
                             # Modify metadata_locked_docs consecutively
@@ -927,7 +927,7 @@ class FileHashStore(HashStore):
                             self.metadata_locked_docs_mp.append(pid_doc)
                     else:
                         with self.metadata_condition_th:
-                            while pid in self.metadata_locked_docs_th:
+                            while pid_doc in self.metadata_locked_docs_th:
                                 self.fhs_logger.debug(sync_wait_msg)
                                 self.metadata_condition_th.wait()
                             self.fhs_logger.debug(sync_begin_debug_msg)
@@ -935,6 +935,9 @@ class FileHashStore(HashStore):
                     try:
                         # Mark metadata doc for deletion
                         objects_to_delete.append(self._rename_path_for_deletion(path))
+                    except FileNotFoundError:
+                        # Another caller deleted this document after it was listed
+                        pass
                     finally:
                         # Release pid
                         end_sync_debug_msg = (
@@ -971,7 +974,7 @@ class FileHashStore(HashStore):
             if self.use_multiprocessing:
                 with self.metadata_condition_mp:
                     # Wait for the pid to release if it's in use
-                    while pid in self.metadata_locked_docs_mp:
+                    while pid_doc in self.metadata_locked_docs_mp:
                         self.fhs_logger.debug(sync_wait_msg)
                         self.metadata_condition_mp.wait()
                     # Modify metadata_locked_docs consecutively
@@ -979,7 +982,7 @@ class FileHashStore(HashStore):
                     self.metadata_locked_docs_mp.append(pid_doc)
             else:
                 with self.metadata_condition_th:
-                    while pid in self.metadata_locked_docs_th:
+                    while pid_doc in self.metadata_locked_docs_th:
                         self.fhs_logger.debug(sync_wait_msg)
                         self.metadata_condition_th.wait()
                     self.fhs_logger.debug(sync_begin_debug_msg)
